@@ -13,7 +13,7 @@ SHAPES = {
 SHAPE_KEYS = {"V": 6, "P": 2, "VV": 3, "VNV": 2, "VVV": 2}
 
 ALL_POLICIES = ["fast", "chk", "vec", "map", "ind", "indvec", "indfast", "thr", "old", "prj", "prjmap",
-                "dbg", "rel", "stdd", "stdr", "stdmap", "dfr", "dfrh"]
+                "dbg", "rel", "rem", "stdd", "stdr", "stdmap", "dfr", "dfrh"]
 # policies whose ids are eager (not deferred)
 EAGER_POLICIES = [p for p in ALL_POLICIES if p not in ("dfr", "dfrh")]
 THROWING = [p for p in ALL_POLICIES]  # every policy supports a throwing handler
@@ -95,6 +95,9 @@ class Script:
 
     def reads(self, m, p=0):
         self.lines.append("RT %d %d" % (p, m))
+
+    def observe_all(self, p=0):
+        self.lines.append("A %d" % p)
 
     def raw(self, line):
         self.lines.append(line)
@@ -250,3 +253,31 @@ def random_registry(rng, n, nmethods, max_arity, max_defs, shapes=None):
             defs.append((m, len([x for x in defs if x[0] == m]), list(t)))
     abstract = {c for c in classes if rng.random() < 0.2}
     return classes, edges, methods, defs, abstract, kind
+
+
+def history_script(sid, bindings, hist, npol=1, observe_every_step=False, shape_k=0):
+    """hist: list of ops as printed by Yomm2MC ([op, p, x]).  After every update (or after every
+    step, for isolation) everything observable is observed on every policy."""
+    s = Script(sid, bindings)
+    for h in hist:
+        op, p, x = h["op"], h["p"], h["x"]
+        if op == "c":
+            s.cls(x["c"], list(x["bases"]), abstract=x["abs"], p=p, r=x["r"])
+        elif op == "uc":
+            s.uncls(x["r"], p=p)
+        elif op == "m":
+            s.method(x["m"], shape_for(len(x["vp"]), shape_k + x["m"]), list(x["vp"]), p=p)
+        elif op == "um":
+            s.unmethod(x["m"], p=p)
+        elif op == "d":
+            s.defn(x["m"], x["d"], list(x["vp"]), p=p)
+        elif op == "ud":
+            s.undef(x["m"], x["d"], p=p)
+        elif op == "u":
+            s.update(p=p)
+        elif op == "h":
+            s.handler(x["kind"], p=p)
+        if observe_every_step or op == "u":
+            for q in range(npol):
+                s.observe_all(p=q)
+    return s
